@@ -174,11 +174,16 @@ def run_property(pid, tier, seed, update_lock=False, only=None, verbose=False):
     t_start = time.time()
     props = load_props()
     spec = props.PROPERTIES[pid]
-    modnames = spec["modules"]
+    modnames = list(spec["modules"])
+    borrow = spec.get("borrow")  # contracts of another property's module that this property also depends on
+    if borrow:
+        modnames += [m for m in borrow["modules"] if m not in modnames]
     timeout_ms = 20000 if tier == "quick" else 120000
     extract.clear_cache()
     reg = build_registry(modnames)
     targets = [t for t, c in reg.contracts.items() if pid in c.properties and not c.call_only]
+    if borrow:
+        targets += [t for t, c in reg.contracts.items() if t not in targets and not c.call_only and any(k in t for k in borrow["match"])]
     if only:
         targets = [t for t in targets if only in t]
     if not targets:
